@@ -68,8 +68,19 @@ STUBS = {
     "ar.infer_backend": lambda a: "tok",
     "ar.get_dtype_name": lambda a: "tok",
     "DEBUG": False,
-    "hasher": lambda k: ("hash", repr(k)),
+    "hasher": lambda k: ("hash", repr(_canon_key(k))),
 }
+
+
+def _canon_key(k):
+    """what pickling sees of a cache key: values, and for objects their class and state (not their identity)"""
+    if isinstance(k, Obj):
+        return (k.cls.name, tuple(sorted((n, repr(_canon_key(v))) for n, v in k.fields.items())))
+    if isinstance(k, (tuple, list)):
+        return tuple(_canon_key(x) for x in k)
+    if isinstance(k, dict):
+        return tuple((_canon_key(a), _canon_key(b)) for a, b in k.items())
+    return k
 
 
 def evaluator(prog, extra=None, max_steps=200000):
@@ -218,6 +229,8 @@ class STok:
         if out == self.shape:
             return self
         t = self.term
+        if isinstance(t, tuple) and t and t[0] == "zeros":
+            return STok(("zeros", out), out)
         if isinstance(t, tuple) and t and t[0] in ("concat", "placed") and len(out) > len(self.shape):
             n_ = self._split_axis(out)
             if n_ is not None:
@@ -569,6 +582,8 @@ def shaped_backend():
         if perm == tuple(range(t.ndim)):
             return t
         shape = tuple(t.shape[p] for p in perm)
+        if isinstance(t.term, tuple) and t.term and t.term[0] == "zeros":
+            return STok(("zeros", shape), shape)
         if isinstance(t.term, tuple) and t.term and t.term[0] == "transpose":
             inner = t.term[2]
             comp = tuple(inner[p] for p in perm)
